@@ -9,7 +9,7 @@ DeleteSheet / SetSheetVisible / SetSheetName / MoveSheet, the template workbook)
 `Facts.MaxSheetNameLength`.  `ops` ranges over ALL finite histories of API calls,
 including rejected ones; `run init ops` is the state after the history on a `NewFile`.
 -/
-import XlModel.Lemmas.Sheets8
+import XlModel.Lemmas.Sheets9
 
 namespace XlModel.Props.C16
 open XlModel XlModel.Sheets
@@ -29,7 +29,8 @@ theorem facts_ok :
       Facts.C16.deleteKeepsVisible && Facts.C16.hideCountsVisibleOthers &&
       Facts.C16.moveRenumbersLocalSheetId && Facts.C16.deleteAdjustsDefinedNames &&
       Facts.C16.copyTargetByPartPath && Facts.C16.newSheetSkipsExistingParts &&
-      Facts.C16.definedNameScopeResolved && Facts.C16.deleteDefinedNameByScope) = true ∧ Facts.C16.workbookScopeName = "Workbook" := by
+      Facts.C16.definedNameScopeResolved && Facts.C16.deleteDefinedNameByScope &&
+      Facts.C16.renameKeepsQuotes && Facts.C16.renameRewritesDefinedNames) = true ∧ Facts.C16.workbookScopeName = "Workbook" := by
   decide
 
 /-! ## invariants over any history (clauses "names stay unique case-insensitively and valid",
@@ -179,7 +180,7 @@ theorem sheets_refine_list_step (ops : List Op) (op : Op) :
 /-- the call is accepted by the implementation model exactly when the list model accepts it
 (SetDefinedName / DeleteDefinedName are outside the list model) -/
 theorem sheets_refine_list_accept (ops : List Op) (op : Op)
-    (hop : ∀ k sc, op ≠ .defname k sc ∧ op ≠ .deldef k sc) :
+    (hop : ∀ k sc dt, op ≠ .defname k sc dt ∧ op ≠ .deldef k sc) :
     (Spec.step (view (run init ops)) op).2 = (step (run init ops) op).2.isNone := by
   obtain ⟨hi, hp⟩ := consistent_any_history ops
   exact sim_accept _ op hi hp hop
@@ -229,11 +230,14 @@ theorem list_move (s s' : St) (a b : Name) (h : moveSheet s a b = .ok s') :
 sheet carries case-insensitively (or to a pure case change of the same name) -/
 theorem list_rename (s s' : St) (a b : Name) (h : setSheetName s a b = .ok s') :
     s' = s ∨ (checkSheetName b = .ok () ∧ (fold b = fold a ∨ ∀ sh ∈ s.sheets, fold sh.name ≠ fold b) ∧
-      s'.sheets = renameList s.sheets a b ∧ s'.activeTab = s.activeTab ∧ s'.defs = s.defs) := by
-  rcases setSheetName_core s s' a b h with h | ⟨hv, hf, hc⟩
+      s'.sheets = renameList s.sheets a b ∧ s'.activeTab = s.activeTab ∧ s'.defs = adjustDefs s.defs a b) ∨
+    (s'.sheets = s.sheets ∧ s'.activeTab = s.activeTab ∧ s'.defs = adjustDefs s.defs a b) := by
+  rcases setSheetName_core s s' a b h with h | ⟨hv, hf, hc⟩ | hc
   · exact Or.inl h
   · simp only [core, Core.mk.injEq] at hc
-    exact Or.inr ⟨(validName_iff b).mp hv, hf, hc.2.2.1, hc.2.1, hc.2.2.2⟩
+    exact Or.inr (Or.inl ⟨(validName_iff b).mp hv, hf, hc.2.2.1, hc.2.1, hc.2.2.2⟩)
+  · simp only [core, Core.mk.injEq] at hc
+    exact Or.inr (Or.inr ⟨hc.2.2.1, hc.2.1, hc.2.2.2⟩)
 
 /-- clause "sheets not targeted by an operation are unchanged", for SetSheetVisible: every sheet
 whose name differs (case-insensitively) from the argument is still in the list, unchanged, and the
@@ -326,6 +330,47 @@ theorem scoped_names_follow_move (sheets : List Sheet) (si t loc : Nat) (src : S
     ((sheets.eraseIdx si).take t ++ src :: (sheets.eraseIdx si).drop t)[moveLoc si t loc]? = sheets[loc]? :=
   splice_follow sheets si t loc src hs ht hl
 
+/-! ## clause "other sheets' names keep pointing at the right sheet", for the refers-to TEXT of defined
+names under SetSheetName (adjust.go adjustRangeSheetName) -/
+
+/-- the rewriting is component-wise over the `,` / `:` / `!` structure of the text, and parsing
+followed by rendering is the identity (so nothing but the components can change) -/
+theorem rename_text_componentwise (data a b : Name) :
+    adjustRange data a b =
+      renderRef ((parseRef data).map fun c => c.map fun r => r.map (adjustPart a b)) ∧
+    renderRef (parseRef data) = data :=
+  ⟨rfl, render_parse data⟩
+
+/-- every reference to the renamed sheet is renamed: the unquoted component `a` becomes `b`, the quoted
+component `'a'` becomes `'b'` (a valid sheet name neither starts nor ends with a quote) -/
+theorem rename_text_renames (a b : Name) (ha : isQuoted a = false) :
+    adjustPart a b a = b ∧ adjustPart a b (quoted a) = quoted b :=
+  ⟨adjustPart_renamed a b ha, adjustPart_renamed_quoted a b⟩
+
+/-- every other component is byte-identical — PARTIAL: for components that are unquoted and differ from
+the renamed name, or have the form `'x'` with `x` different from it.  The one excluded component
+is the lone apostrophe (`finding_rename_lone_quote`). -/
+theorem rename_text_other_identical_partial (a b part : Name) (h : Untouched a part) :
+    adjustPart a b part = part := adjustPart_untouched a b part h
+
+/-- a whole refers-to text none of whose components names the renamed sheet is byte-identical after
+SetSheetName (same exclusion) -/
+theorem rename_text_untouched_partial (data a b : Name)
+    (h : ∀ cellRef ∈ parseRef data, ∀ rangeRef ∈ cellRef, ∀ part ∈ rangeRef, Untouched a part) :
+    adjustRange data a b = data := adjustRange_untouched data a b h
+
+/-- FINDING (open, harmless): a component consisting of a single apostrophe counts as "quoted", is
+trimmed to the empty string and quoted again: the text `'` becomes `''` on every rename -/
+theorem finding_rename_lone_quote :
+    adjustRange ['\''] ['a'] ['b'] = ['\'', '\''] ∧ adjustRange ['\''] ['a'] ['b'] ≠ ['\''] := by
+  decide +kernel
+
+/-- examples: quoted and unquoted references, a longer name containing the renamed one, another quoted sheet -/
+theorem rename_text_example :
+    adjustRange (bytesOf "'x.y'!$A$1,'my sheet'!$A$1:'my sheet'!$B$2,x.y!C3,x.yz!C3") (bytesOf "x.y") (bytesOf "a_n") =
+      bytesOf "'a_n'!$A$1,'my sheet'!$A$1:'my sheet'!$B$2,a_n!C3,x.yz!C3" := by
+  decide +kernel
+
 /-! ## non-vacuity and regression witnesses (the histories of known_findings.d/C16.json) -/
 
 /-- renaming onto a case variant (or the exact name) of another sheet is rejected, a pure case
@@ -346,10 +391,10 @@ theorem last_visible_kept :
 
 /-- a history that exercises create / scoped name / move / delete, with the expected final lists -/
 theorem history_example :
-    let s := run init [.new ['A'], .new ['B'], .new ['C'], .defname 0 ['A'], .defname 1 ['C'],
+    let s := run init [.new ['A'], .new ['B'], .new ['C'], .defname 0 ['A'] ['1'], .defname 1 ['C'] ['1'],
       .move ['C'] ['A'], .delete ['B'], .new ['b']]
     s.sheets.map (fun sh => (sh.name, sh.id)) = [(bytesOf "Sheet1", 1), (['C'], 4), (['A'], 2), (['b'], 5)] ∧
-    s.defs = [⟨0, some 2⟩, ⟨1, some 1⟩] ∧ s.count = 4 := by
+    s.defs = [⟨0, some 2, ['1']⟩, ⟨1, some 1, ['1']⟩] ∧ s.count = 4 := by
   decide +kernel
 
 end XlModel.Props.C16
